@@ -8,6 +8,7 @@ CONSTANTS
   EofWithData = TRUE
   ShapesA <- LocalShapes
   ShapesB <- AllShapes
+  DevDrainDeadline = FALSE
   DevCloseWriterFallback = FALSE
   Emit = @@EMIT@@
   Classes = {1, 2, 3, 4}
@@ -24,10 +25,12 @@ CONSTANTS
   DevSpin = FALSE
   DevNoUnblock = FALSE
   DevAliasFlush = FALSE
+  SockBatch = FALSE
+  DevNoInnerFlush = FALSE
   SockQueue = FALSE
   DevQueueRefs = FALSE
   DevDropOnClose = FALSE
 INIT UInit
 NEXT UNext
-INVARIANTS UTypeOK UDatagrams UComplete UCompleteAny UEncoded UFlushed UMutex UBuf
+INVARIANTS UTypeOK UDatagrams UComplete UCompleteAny UEncoded UFlushed UMutex UBuf UBatchFits
 CHECK_DEADLOCK FALSE
